@@ -265,7 +265,7 @@ def run(prop, tier, seed, out):
             # The "failed" scenarios make a management call whose precondition fails and then Send on the same Broker.
             if prop == "C03":
                 lp = scr.path("locks-send.json")
-                p = run_vh(vh, ["locks-run", "-only", "send,mixed,failed,race", "-out", lp, "-reps", "1" if quick else "4"], timeout=900)
+                p = run_vh(vh, ["locks-run", "-only", "send,mixed,failed,race,getters", "-out", lp, "-reps", "1" if quick else "4"], timeout=900)
                 if p.returncode != 0:
                     if "panic" in p.stderr or "fatal error" in p.stderr:
                         out.violation("process died while nodes re-entered the Broker from Process: " + p.stderr[:300], {"stderr": p.stderr[-3000:]})
